@@ -71,6 +71,10 @@ func (im indexManager) Dispatch(
 					if err := <-drainErrC; err != nil {
 						cancel(err)
 					}
+					// The index is only done once all of its stages have
+					// stopped, they must not outlive the transaction.
+					for range drainErrC {
+					}
 					wg.Done()
 				}()
 			}
@@ -162,6 +166,7 @@ func (im indexManager) getDrainFn(bucketName string, params models.IndexSchemaVa
 					flatIndex.UpdateBucket(bucket)
 					return <-flatIndex.InsertUpdateDelete(ctx, out)
 				})
+				close(writeErrC)
 			}()
 			return utils.MergeErrorsWithContext(ctx, transformErrC, writeErrC)
 		}
